@@ -32,6 +32,10 @@ NOT_FUNCS = {"np.bitwise_not", "numpy.bitwise_not", "np.logical_not",
 
 
 MUTANTS = [
+    ("region files cached by name", "AegeanTools/regions.py",
+     "    @classmethod\n    def load(cls, mimfile):",
+     "    @classmethod\n    @functools.lru_cache(maxsize=32)\n"
+     "    def load(cls, mimfile):", "C10-R11"),
     ("coordinate columns stacked whole (mask dropped)",
      "AegeanTools/regions.py",
      "            sky = np.array(list(zip(ra, dec))).reshape(-1, 2)",
@@ -721,6 +725,26 @@ def run(ctx):
               "and is tested at its hidden value, e.g. (0, 0)" %
               (norm(whole[0], 60) if whole else ""),
               node=whole[0] if whole else r2s_.node)
+    # ---------------------------------------------------------------- R11
+    from ..core import shared_state as _shared
+    ctx.rule("C10-R11", "masking uses the region that the file holds now: "
+             "no method of Region and no function of MIMAS memoises "
+             "(lru_cache on Region.load, module- or class-level containers, "
+             "mutable defaults) -- a region cached by file name survives the "
+             ".mim file being rewritten")
+    _n = 0
+    for _q, _f in sorted(prog.functions.items()):
+        if not (_f.module.endswith("regions") or
+                _f.module.endswith("AegeanTools.MIMAS")):
+            continue
+        _n += 1
+        _st = _shared(prog, _f)
+        ctx.check("C10-R11", _f, "%s keeps no state between calls" %
+                  _f.short, not _st, "%s: pixels / rows are then blanked or "
+                  "kept according to a region that is not the one given" %
+                  "; ".join(d for _, d in _st[:3]),
+                  node=_st[0][0] if _st else _f.node)
+    ctx.floor("C10-R11", _n, 20, "functions examined for shared state")
     # ---------------------------------------------------------------- R8
     ctx.rule("C10-R8", "undefined coordinates are never inside: the "
              "non-finite mask of Region.sky_within is taken from values that "
